@@ -2,7 +2,7 @@ SPEC = dict(
     id="C24",
     bin="c24",
     cases_quick=2400,
-    cases_thorough=120000,
+    cases_thorough=50000,
     level="proof",
     technique="Coq theorems over a Gallina model of the whole acceptance path for custom price feeds (with_prices_opts -> parse_from_feed_account / check_and_get_price -> adjustment -> validate_one -> from_price -> merge_range / finish -> f -> clear_all_prices, and validate_time), reusing the C26/C27/C29 models + differential correspondence with the REAL Oracle::with_prices_opts driven in-process on Store / TokenMap / PriceFeed accounts with a stubbed clock + literal-property oracle on the outputs",
     text="For all token configs, feed accounts, clock values and store limits: an accepted token is known, enabled, from a program-owned feed of the expected provider and feed id, 0 < min <= max with one multiplier, not older than max age after the timestamp adjustment, not beyond now + max future excess, within the feed heartbeat, open unless closed prices are allowed; the recorded range is the exact min / max of the adjusted timestamps and its spread is within the allowed range; the wrapped operation runs only if every token was accepted; the oracle is cleared on every path (histories).  Deviation: inside reference +- configured deviation except for two known classes (rounded-up tolerance, zero computed deviation).",
